@@ -3,6 +3,8 @@ Ported to Python 3.
 """
 from __future__ import annotations
 
+import re
+
 from twisted.web import http, static
 from twisted.internet import defer
 from twisted.web.resource import (
@@ -394,18 +396,25 @@ class FileDownloader(Resource, object):
             if units != 'bytes':
                 return None     # nothing else supported
 
+            def number(s):
+                # the grammar says 1*DIGIT: the builtin would also take
+                # signs, blanks, underscores and non-ASCII digits
+                if not re.match(r'^[0-9]+\Z', s):
+                    raise ValueError(s)
+                return int(s)
+
             def parse_range(r):
                 first, last = r.split('-', 1)
 
                 if first == '':
                     # suffix-byte-range-spec
-                    first = filesize - int(last)
+                    first = filesize - number(last)
                     last = filesize - 1
                 else:
                     # byte-range-spec
 
                     # first-byte-pos
-                    first = int(first)
+                    first = number(first)
 
                     # last-byte-pos
                     if last == '':
@@ -414,7 +423,7 @@ class FileDownloader(Resource, object):
                         # render() answers 416
                         last = filesize - 1
                     else:
-                        last = int(last)
+                        last = number(last)
                         if last < first:
                             raise ValueError
 
@@ -425,7 +434,7 @@ class FileDownloader(Resource, object):
             # Note: the spec uses "1#" for the list of ranges, which
             # implicitly allows whitespace around the ',' separators,
             # so strip it.
-            return [ parse_range(r.strip()) for r in rangeset.split(',') ]
+            return [ parse_range(r.strip(' \t')) for r in rangeset.split(',') ]
         except ValueError:
             return None
 
@@ -456,9 +465,12 @@ class FileDownloader(Resource, object):
 
         # TODO: for mutable files, use the roothash. For LIT, hash the data.
         # or maybe just use the URI for CHK and LIT.
-        rangeheader = req.getHeader('range')
+        rangeheader = req.getHeader(b'range')
         if rangeheader:
-            ranges = self.parse_range_header(rangeheader)
+            try:
+                ranges = self.parse_range_header(rangeheader.decode("ascii"))
+            except UnicodeDecodeError:
+                ranges = None   # cannot be parsed: ignore the header
 
             # ranges = None means the header didn't parse, so ignore
             # the header as if it didn't exist.  If is more than one
